@@ -210,11 +210,14 @@ impl FsCommand {
     fn check_preconditions(&self) -> io::Result<()> {
         match self {
             FsCommand::Remove { file } => Self::check_can_unlink(&file.path),
-            FsCommand::SoftLink { link, .. }
-            | FsCommand::HardLink { link, .. }
-            | FsCommand::RefLink { link, .. } => {
+            FsCommand::SoftLink { link, .. } | FsCommand::HardLink { link, .. } => {
                 Self::check_can_unlink(&link.path)?;
                 Self::check_can_create_temp_file(&link.path)
+            }
+            FsCommand::RefLink { link, .. } => {
+                Self::check_can_unlink(&link.path)?;
+                Self::check_can_create_temp_file(&link.path)?;
+                Self::check_can_overwrite(&link.path)
             }
             FsCommand::Move { source, target, .. } => {
                 Self::check_can_unlink(&source.path)?;
@@ -240,7 +243,83 @@ impl FsCommand {
                     ),
                 ));
             }
+            // An immutable or append-only file cannot be removed or renamed by anybody
+            #[cfg(any(target_os = "linux", target_os = "android"))]
+            if Self::is_immutable(path) {
+                return Err(io::Error::new(
+                    ErrorKind::PermissionDenied,
+                    format!(
+                        "Cannot remove or replace {}: the file is immutable or append-only",
+                        path.display()
+                    ),
+                ));
+            }
+            // In a sticky directory (/tmp) only the owner of the file or of the directory
+            // may remove or rename the file.
+            use std::os::unix::fs::MetadataExt;
+            let user = nix::unistd::geteuid();
+            let dir_metadata = fs::metadata(dir.to_path_buf());
+            let file_metadata = fs::symlink_metadata(path.to_path_buf());
+            if let (Ok(dir_metadata), Ok(file_metadata)) = (dir_metadata, file_metadata) {
+                let sticky = dir_metadata.mode() & libc::S_ISVTX as u32 != 0;
+                let owner = user.is_root()
+                    || user.as_raw() == dir_metadata.uid()
+                    || user.as_raw() == file_metadata.uid();
+                if sticky && !owner {
+                    return Err(io::Error::new(
+                        ErrorKind::PermissionDenied,
+                        format!(
+                            "Cannot remove or replace {}: it belongs to another user \
+                             and directory {} is sticky",
+                            path.display(),
+                            dir.display()
+                        ),
+                    ));
+                }
+            }
         }
+        Ok(())
+    }
+
+    /// Returns true if the file has the immutable or the append-only attribute (`chattr +i`, `+a`).
+    /// Returns false if that cannot be found out.
+    #[cfg(any(target_os = "linux", target_os = "android"))]
+    fn is_immutable(path: &Path) -> bool {
+        use std::os::unix::fs::OpenOptionsExt;
+        use std::os::unix::io::AsRawFd;
+        const FS_IMMUTABLE_FL: libc::c_long = 0x10;
+        const FS_APPEND_FL: libc::c_long = 0x20;
+        let file = fs::OpenOptions::new()
+            .read(true)
+            .custom_flags(libc::O_NONBLOCK | libc::O_NOFOLLOW)
+            .open(path.to_path_buf());
+        match file {
+            Ok(file) => {
+                let mut flags: libc::c_long = 0;
+                let result =
+                    unsafe { libc::ioctl(file.as_raw_fd(), libc::FS_IOC_GETFLAGS, &mut flags) };
+                result == 0 && flags & (FS_IMMUTABLE_FL | FS_APPEND_FL) != 0
+            }
+            Err(_) => false,
+        }
+    }
+
+    /// On Linux the data of the retained file are cloned into the existing file,
+    /// which has to be opened for writing for that. Opening it changes nothing.
+    fn check_can_overwrite(path: &Path) -> io::Result<()> {
+        #[cfg(any(target_os = "linux", target_os = "android"))]
+        if let Err(e) = fs::OpenOptions::new().write(true).open(path.to_path_buf()) {
+            return Err(io::Error::new(
+                e.kind(),
+                format!(
+                    "Cannot deduplicate {}: cannot open it for writing: {}",
+                    path.display(),
+                    e
+                ),
+            ));
+        }
+        #[cfg(not(any(target_os = "linux", target_os = "android")))]
+        let _ = path;
         Ok(())
     }
 
